@@ -4,8 +4,9 @@
 set -u
 cleanup_scratch() {
   # scratch directories of workers that were killed (only those whose owning process is gone)
-  for d in /dev/shm/verif-*-[0-9]*; do
-    [ -d "$d" ] || continue
+  # only directories untouched for an hour: a check running next to this one may own a directory whose
+  # creating process has already exited (forked helpers), and must not lose it
+  for d in $(find /dev/shm -maxdepth 1 -type d -name 'verif-*-[0-9]*' -mmin +60 2>/dev/null); do
     pid="${d##*-}"
     [ -d "/proc/$pid" ] || rm -rf "$d"
   done
